@@ -230,9 +230,10 @@ class Dense:
                 # tensors broadcast together: they do, to a shape with 1s on unused nodes
             else:
                 Wb = W
-            zmask = zmask | (Wb == self.zero)
             full = full * Wb if self.semiring == 'real' else full + Wb
-        full = torch.where(zmask, torch.full_like(full, self.zero), full)
+        # 0 x inf = 0 (real) / -inf + inf = -inf (max-plus): the only way a NaN can arise here.
+        # (masking on NaN rather than on "some factor is zero" keeps d/dw at w = 0 intact)
+        full = torch.where(torch.isnan(full), torch.full_like(full, self.zero), full)
         internal = [v for v in range(nn) if v not in rule['ext']]
         if self.semiring == 'real':
             out = full.sum(dim=internal) if internal else full
